@@ -22,6 +22,9 @@ func main() {
 	}
 	switch os.Args[1] {
 	case "C06":
+		if os.Getenv("VERIF_PHASE") == "conc" {
+			runC06Conc(ev.Parse("model_checking"))
+		}
 		runC06(ev.Parse("model_checking"))
 	case "C07":
 		runC07(ev.Parse("fault_enumeration"))
@@ -234,6 +237,6 @@ func runC06(r *ev.Run) {
 	r.Set("max_candidates_per_version", maxCands)
 	r.Alias("traces_validated_against_impl", "transitions")
 	r.Set("rule", "breadth-first search over node-database histories: per version up to max_candidates state commits from the previous finalized root (batches add / del / remove+re-insert / modify / no-op / clear over 3 keys), an optional IO-root commit, finalize of any candidate (with or without the IO root), prune of the earliest version with any lag; successor = replay on a fresh database + 1 letter; deduplicated by the complete physical key/version dump of the store; after every letter every retained finalized root must be listed, present and fully readable (iteration, gets, verified proofs) with exactly the reference contents, and a discarded root is absent, unreadable or reads exactly its own contents")
-	r.Assume("concurrent readers are not explored by this check (sequential histories only)", "keys limited to 3, values a/b", "badger: candidates derived from other candidates of the same version are not generated")
+	r.Assume("this phase explores sequential histories; concurrent readers are explored by the concurrency phase (conc_* keys)", "keys limited to 3, values a/b", "badger: candidates derived from other candidates of the same version are not generated")
 	r.Finish()
 }
